@@ -23,9 +23,9 @@ theorem orgRel_noInclude {D : Nat} {P : Nat → Prop} {pa pb : List Stmt} (h : P
   rw [hr.inert]; simpa using this
 
 theorem expand_id {fs : Files} {p ss0 : List Stmt} (hinc : ∀ s ∈ p, s.row.isInclude = false)
-    (h : expand fs 64 [] p = .ok ss0) : ss0 = p := by
-  have := expand_noinclude fs 63 [] p (by simpa using hinc)
-  rw [show (63 : Nat) + 1 = 64 from rfl, h] at this
+    (h : expand fs (includeFuel fs) [] p = .ok ss0) : ss0 = p := by
+  have := expand_noinclude fs fs.length [] p (by simpa using hinc)
+  rw [show fs.length + 1 = includeFuel fs from rfl, h] at this
   cases this; rfl
 
 /-- the symbol tables (before addresses are filled in) are the same, and the statements that enter
